@@ -1,7 +1,11 @@
 /- Native model driver for engine `logstream` (C13). One op per line on stdin, one observation per line on stdout.
 
-   reset start=S follow=F batch=B hist=H|-|fail harm=K|- chain=BLOCK:ID.TX.REMOVED,…;BLOCK:…   (chain=- : no logs)
-   head n=N | suberr | drop | fetcherr k=K [mode=…] | subfail | end
+   reset start=S follow=F batch=B hist=H|-|fail harm=K|- [hmsg=…] chain=BLOCK:ID.TX.REMOVED,…;BLOCK:…   (chain=- : no logs)
+   head n=N | suberr | drop | fetcherr k=K [mode=rpc|drop] [msg=generic|toolarge|readlimit|respsize] | subfail | end
+
+   `mode` (RPC error vs. connection dropped instead of an answer) and `msg`/`hmsg` (the text of the RPC error: a generic
+   failure or one of the "response too large" answers of real nodes) only tell the fake node HOW to fail; the code does
+   not inspect either, so the model's transition is the same for all of them.
 -/
 import Ssv.Common.Wire
 import Ssv.Model.LogStream
